@@ -414,6 +414,147 @@ fn bom_after_transient_error(acc: &mut Acc, order: (u32, u64)) {
     }
 }
 
+
+// ---------------------------------------------------------------------------------------------
+// The documented four-state machine that decides which encoding wins (reader/mod.rs, EncodingRef):
+//   Implicit --from_str--> Explicit; Implicit --BOM--> BomDetected;
+//   Implicit | BomDetected --<?xml encoding=...?>--> XmlDetected; Explicit and XmlDetected never change.
+// Explored exhaustively over token sequences; the model is the diagram, the observation is
+// `decoder().encoding()` after every event plus every payload decoded with that decoder.
+
+#[derive(Clone, Copy, PartialEq, Debug)]
+enum Est {
+    Implicit,
+    Explicit,
+    Bom,
+    Xml,
+}
+
+/// (bytes, kind, label declared by the token if it is an XML declaration with a known label)
+const SM_TOKENS: [(&[u8], u8, Option<&str>); 12] = [
+    (b"<?xml version=\"1.0\"?>", 7, None),
+    (b"<?xml version=\"1.0\" encoding=\"windows-1251\"?>", 7, Some("windows-1251")),
+    (b"<?xml version='1.0' encoding='KOI8-R'?>", 7, Some("KOI8-R")),
+    (b"<?xml encoding=\"utf-8\"?>", 7, Some("UTF-8")),
+    (b"<?xml version=\"1.0\" encoding=\"no-such-label\"?>", 7, None),
+    (b"<?xml version=\"1.0\" encoding=\"ISO-8859-5\" standalone=\"yes\"?>", 7, Some("ISO-8859-5")),
+    (b"<?xmlx encoding=\"KOI8-R\"?>", 8, None),
+    (b"<?pi encoding=\"KOI8-R\"?>", 8, None),
+    (b"\xD0\xB0\xD1\x8F", 4, None),
+    (b"<e a=\"\xD0\xB0\"/>", 2, None),
+    (b"<!--\xD1\x8F-->", 6, None),
+    (b"\n", 4, None),
+];
+
+fn sm_expected(seq: &[u8], bom: bool, from_str: bool) -> Vec<(u8, &'static Encoding)> {
+    let mut st = if from_str { Est::Explicit } else { Est::Implicit };
+    let mut enc: &'static Encoding = encoding_rs::UTF_8;
+    if bom && st == Est::Implicit {
+        st = Est::Bom;
+    }
+    let mut out: Vec<(u8, &'static Encoding)> = Vec::new();
+    let mut prev_text = false;
+    for &t in seq {
+        let (_, kind, label) = SM_TOKENS[t as usize];
+        if let Some(l) = label {
+            if st == Est::Implicit || st == Est::Bom {
+                st = Est::Xml;
+                enc = Encoding::for_label(l.as_bytes()).unwrap();
+            }
+        }
+        // adjacent text tokens are one text run
+        if kind == 4 && prev_text {
+            continue;
+        }
+        prev_text = kind == 4;
+        out.push((kind, enc));
+    }
+    out
+}
+
+fn sm_check(seq: &[u8], bom: bool, src: u8) -> Result<(), String> {
+    let mut doc = Vec::new();
+    if bom {
+        doc.extend_from_slice(&[0xEF, 0xBB, 0xBF]);
+    }
+    for &t in seq {
+        doc.extend_from_slice(SM_TOKENS[t as usize].0);
+    }
+    let from_str = src == 0;
+    let want = sm_expected(seq, bom, from_str);
+    let script = match src {
+        2 => Script::whole(),
+        3 => Script::pieces(4),
+        4 => Script::pieces(7),
+        _ => Script::pieces(1),
+    };
+    let got = guarded_mut(|| -> Result<Vec<(u8, &'static Encoding, Vec<u8>, Result<String, String>)>, String> {
+        let mut out = Vec::new();
+        macro_rules! pump {
+            ($reader:ident, $read:expr) => {{
+                for _ in 0..doc.len() + 8 {
+                    let ev = $read.map_err(|e| format!("reader error {:?}", e))?;
+                    let dec = $reader.decoder();
+                    let (kind, bytes): (u8, Vec<u8>) = match &ev {
+                        Event::Eof => break,
+                        Event::Decl(e) => (7, e.to_vec()),
+                        Event::PI(e) => (8, e.to_vec()),
+                        Event::Text(e) => (4, e.to_vec()),
+                        Event::Comment(e) => (6, e.to_vec()),
+                        Event::Empty(e) => (2, e.attributes().next().and_then(|a| a.ok()).map(|a| a.value.to_vec()).unwrap_or_default()),
+                        other => return Err(format!("unexpected event {:?}", other)),
+                    };
+                    let s = dec.decode(&bytes).map(|c| c.into_owned()).map_err(|e| format!("{:?}", e));
+                    out.push((kind, dec.encoding(), bytes, s));
+                }
+            }};
+        }
+        match src {
+            0 => {
+                let text = std::str::from_utf8(&doc).map_err(|e| e.to_string())?;
+                let mut reader = Reader::from_str(text);
+                pump!(reader, reader.read_event());
+            }
+            1 => {
+                let mut reader = Reader::from_reader(&doc[..]);
+                pump!(reader, reader.read_event());
+            }
+            _ => {
+                let mut reader = Reader::from_reader(Source::new(&doc, &script));
+                let mut buf = Vec::new();
+                pump!(reader, { buf.clear(); reader.read_event_into(&mut buf) });
+            }
+        }
+        Ok(out)
+    })
+    .map_err(|p| format!("panic: {}", p))??;
+    if got.len() != want.len() {
+        return Err(format!("{} events, the token sequence has {}", got.len(), want.len()));
+    }
+    for (k, (g, w)) in got.iter().zip(want.iter()).enumerate() {
+        if g.0 != w.0 {
+            return Err(format!("event #{} has kind {}, expected {}", k, g.0, w.0));
+        }
+        if g.1 != w.1 {
+            return Err(format!("after event #{} the decoder's encoding is {}, the documented state machine gives {}", k, g.1.name(), w.1.name()));
+        }
+        if g.2.starts_with(&[0xEF, 0xBB, 0xBF]) {
+            return Err(format!("event #{} starts with a byte-order mark", k));
+        }
+        let reference = w.1.decode_without_bom_handling_and_without_replacement(&g.2).map(|c| c.into_owned());
+        match (&g.3, &reference) {
+            (Ok(a), Some(b)) if a == b => {}
+            (Err(_), None) => {}
+            _ => return Err(format!("payload {:02x?} of event #{} decodes to {:?}; {} gives {:?}", g.2, k, g.3, w.1.name(), reference)),
+        }
+    }
+    Ok(())
+}
+
+fn sm_name(src: u8) -> &'static str {
+    ["Reader::from_str", "slice", "buffered whole", "buffered pieces of 4", "buffered pieces of 7", "buffered pieces of 1"][src as usize]
+}
+
 pub fn run(ctx: &Ctx) {
     ctx.set_rule(
         "for every encoding_rs encoding that reports itself ASCII-compatible (36 of 40): the alphabet is EVERY one- and two-byte high \
@@ -424,7 +565,7 @@ pub fn run(ctx: &Ctx) {
          with the reader's decoder (and unescaped) equals the original string, the decoder reports the declared encoding after the \
          declaration, Reader::from_str keeps UTF-8 whatever is declared, no BOM inside an event — also when the very first refill fails with a transient I/O error and the caller reads on. Malformed: every lead byte / (lead, \
          trail) pair the encoding rejects, injected into an attribute value and into text, in the middle and as the very end of the payload => an error from decode() and decode_into() alike, never replacement characters. \
-         evaluations = documents read; non-trivial = documents that were read and compared; states = (encoding, document size)",
+         Encoding state machine: every sequence of up to N tokens over 12 (six XML declarations with/without/unknown encoding label, two look-alike PIs,          text and attribute bytes that are valid in all the encodings involved, a comment, a line feed), with and without a UTF-8 BOM, through from_str, a slice and a          buffered source (whole, pieces of 4, 7, 1): decoder().encoding() after every event equals the documented Implicit/Explicit/BomDetected/XmlDetected machine and every payload decodes accordingly.          evaluations = documents read; non-trivial = documents that were read and compared; states = (encoding, document size)",
     );
     ctx.assume("non-ASCII-compatible encodings (UTF-16LE/BE, ISO-2022-JP, replacement) are documented as unsupported and skipped");
     let encs = encodings();
@@ -435,9 +576,53 @@ pub fn run(ctx: &Ctx) {
             bom_after_transient_error(acc, (0, i));
         }
     });
+
+    let k = SM_TOKENS.len() as u64;
+    let n = ctx.tier.pick(4, 6);
+    ctx.layer(
+        "encoding_state_machine",
+        1,
+        count_upto(k, n) * 2,
+        json!({"tokens": SM_TOKENS.iter().map(|t| lossy(t.0)).collect::<Vec<_>>(), "max_tokens": n, "bom": [false, true],
+               "sources": (0..6u8).map(sm_name).collect::<Vec<_>>(), "model": "Implicit/Explicit/BomDetected/XmlDetected as documented on EncodingRef"}),
+        |i, acc| {
+            let bom = i % 2 == 1;
+            let mut seq = Vec::new();
+            decode_upto(k, n, i / 2, &mut seq);
+            for src in 0..6u8 {
+                // the stated exception: the BOM sniff may look only at the first piece
+                if bom && src == 5 {
+                    continue;
+                }
+                acc.evaluations += 1;
+                acc.traces += 1;
+                acc.transitions += seq.len() as u64;
+                match sm_check(&seq, bom, src) {
+                    Ok(()) => {
+                        let decls = seq.iter().filter(|&&t| SM_TOKENS[t as usize].2.is_some()).count();
+                        if decls >= 1 {
+                            acc.nt_count += 1;
+                        }
+                        acc.state(h64(&(bom, src == 0, decls.min(3), seq.first().map(|&t| SM_TOKENS[t as usize].2.is_some()))));
+                    }
+                    Err(what) => {
+                        let doc: Vec<u8> = seq.iter().flat_map(|&t| SM_TOKENS[t as usize].0.to_vec()).collect();
+                        acc.violation((1, i), format!("{}document {:?} read through {}: {}", if bom { "BOM + " } else { "" }, lossy(&doc), sm_name(src), what), json!({"sm_seq": seq, "bom": bom, "src": src}))
+                    }
+                }
+            }
+        },
+    );
 }
 
 pub fn replay(case: &Value) -> Result<(), String> {
+    if let Some(seq) = case.get("sm_seq").and_then(|s| s.as_array()) {
+        let seq: Vec<u8> = seq.iter().map(|x| x.as_u64().unwrap() as u8).collect();
+        let bom = case["bom"].as_bool().unwrap_or(false);
+        let src = case["src"].as_u64().unwrap_or(1) as u8;
+        println!("tokens {:?} bom {} source {}", seq, bom, sm_name(src));
+        return sm_check(&seq, bom, src);
+    }
     let label = case["encoding"].as_str().ok_or("no encoding")?;
     let enc = Encoding::for_label(label.as_bytes()).ok_or("unknown encoding")?;
     let mut acc = Acc::default();
